@@ -332,6 +332,13 @@ void make_items(const Options& o, std::vector<Item>& items)
         hx::multisets((int)seq1.size(), 3, [&](const std::vector<int>& idx) {
             emit(mt, {seq1[idx[0]], seq1[idx[1]], seq1[idx[2]]}, 2, 3);
         });
+        if (!thorough) {
+            // quick: a reader, a submitter of one and a submitter of two modifications (two queued + one direct)
+            for (int r : {RD0, LOADK})
+                for (int a : {DETACH, ASYNC_VAL})
+                    for (int b : {DETACH, ASYNC_VAL})
+                        for (int c : {DETACH, ASYNC_VAL}) emit(mt, {{b, c}, {r}, {a}}, 3, 3);
+        }
         if (thorough) {
             // three threads, one with two operations
             hx::multisets((int)seq1.size(), 2, [&](const std::vector<int>& idx) {
